@@ -77,6 +77,35 @@ theorem openArchive_M : (openArchive : M Archive) = Model.openArchive := by
 
 theorem findContent_M (f : FileData) : (findContent f : M Nat) = Model.findContent f := rfl
 
+theorem streamHeader_M : (streamHeader : M (Option FileData)) = Model.streamHeader := rfl
+
+theorem streamEntry_M (ext : Ext) : (streamEntry ext : M _) = Model.streamEntry ext := rfl
+
+theorem streamEntries_M (ext : Ext) (fuel : Nat) : (streamEntries ext fuel : M _) = Model.streamEntries ext fuel := by
+  induction fuel with
+  | zero => rfl
+  | succ fuel ih =>
+    unfold streamEntries Model.streamEntries
+    simp only [ih]
+    rfl
+
+theorem streamCentralLoop_M (fuel : Nat) : (streamCentralLoop fuel : M _) = Model.streamCentralLoop fuel := by
+  induction fuel with
+  | zero => rfl
+  | succ fuel ih =>
+    unfold streamCentralLoop Model.streamCentralLoop
+    simp only [ih]
+    rfl
+
+/-- **`ZipStreamReader::visit` of the model is the generic visit** with the loop bounds the model takes from
+the length of its input. -/
+theorem streamVisit_M (ext : Ext) :
+    Model.streamVisit ext = (M.getDev >>= fun d =>
+      (streamVisitF ext (d.buf.length / 30 + 1) (d.buf.length / 46 + 1) : M _)) := by
+  unfold Model.streamVisit streamVisitF
+  simp only [streamEntries_M, streamCentralLoop_M]
+  rfl
+
 end G
 /-! ### `read_exact` over the short-reading device = `read_exact` over the `Cursor` -/
 
@@ -183,6 +212,95 @@ theorem short_readExactAux_spec (sch : Nat → Nat) :
           rw [hkc, ← List.drop_drop, take_split (by omega)]
         · rw [if_neg (by omega), if_neg hle]
 
+/-- `takeAll` fault-free, as a function of buffer and position. -/
+theorem M_takeAll_spec (n : Nat) (d : Dev) :
+    ∃ d', d'.buf = d.buf ∧ d'.pos = d.pos + min n (d.buf.length - d.pos) ∧
+      takeAll n none d = (.ok ((d.buf.drop d.pos).take n), d') := by
+  have hlen : ∀ k, ((d.buf.drop d.pos).take k).length = min k (d.buf.length - d.pos) := by
+    intro k; rw [List.length_take, List.length_drop]
+  unfold takeAll
+  by_cases h0 : n = 0
+  · subst h0
+    refine ⟨d, rfl, by simp, ?_⟩
+    rw [if_pos rfl]
+    rfl
+  · rw [if_neg h0]
+    obtain ⟨d1, hd1⟩ : ∃ d1 : Dev, (⟨d.buf, d.pos + ((d.buf.drop d.pos).take n).length,
+      d.calls + 1, d.fkind⟩ : Dev) = d1 := ⟨_, rfl⟩
+    have hb1 : d1.buf = d.buf := by rw [← hd1]
+    have hp1 : d1.pos = d.pos + min n (d.buf.length - d.pos) := by rw [← hd1]; simp only [hlen]
+    have hread : M.read n none d = (.ok ((d.buf.drop d.pos).take n), d1) := by rw [← hd1]; rfl
+    rw [M.bind_of_ok hread]
+    by_cases hle : ((d.buf.drop d.pos).take n).length = n
+    · rw [if_pos hle]
+      exact ⟨d1, hb1, hp1, rfl⟩
+    · rw [if_neg hle]
+      by_cases hz : ((d.buf.drop d.pos).take n).length = 0
+      · rw [if_pos hz]
+        exact ⟨d1, hb1, hp1, rfl⟩
+      · rw [if_neg hz]
+        generalize hm : n - ((d.buf.drop d.pos).take n).length = mm
+        obtain ⟨d2, hd2⟩ : ∃ d2 : Dev, (⟨d1.buf, d1.pos + ((d1.buf.drop d1.pos).take mm).length,
+          d1.calls + 1, d1.fkind⟩ : Dev) = d2 := ⟨_, rfl⟩
+        have hread2 : M.read mm none d1 = (.ok ((d1.buf.drop d1.pos).take mm), d2) := by
+          rw [← hd2]; rfl
+        rw [M.bind_of_ok hread2]
+        refine ⟨d2, by rw [← hd2]; exact hb1, ?_, rfl⟩
+        rw [← hd2]
+        rw [hlen] at hle
+        simp only [List.length_take, List.length_drop, hb1, hp1]
+        omega
+
+/-- The draining loop over the short-reading device, as a function of buffer and position. -/
+theorem short_takeAllAux_spec (sch : Nat → Nat) :
+    ∀ (fuel : Nat) (d : Dev) (n : Nat), n ≤ fuel →
+      ∃ d', d'.buf = d.buf ∧ d'.pos = d.pos + min n (d.buf.length - d.pos) ∧
+        MS.takeAllAux sch fuel d n = ((d.buf.drop d.pos).take n, d') := by
+  intro fuel
+  induction fuel with
+  | zero =>
+    intro d n hn
+    have : n = 0 := by omega
+    subst this
+    exact ⟨d, rfl, by simp, by simp [MS.takeAllAux]⟩
+  | succ fuel ih =>
+    intro d n hn
+    cases n with
+    | zero => exact ⟨d, rfl, by simp, by simp [MS.takeAllAux]⟩
+    | succ n =>
+      generalize hk : min (n + 1) (max (sch d.calls) 1) = k
+      have hk1 : 1 ≤ k ∧ k ≤ n + 1 := by omega
+      have hrd : (shortSrc sch).rd d (n + 1) = (.ok ((d.buf.drop d.pos).take k),
+          { d with pos := d.pos + ((d.buf.drop d.pos).take k).length, calls := d.calls + 1 }) := by
+        simp only [shortSrc, Nat.succ_ne_zero, if_false, hk]
+      have hlen : ((d.buf.drop d.pos).take k).length = min k (d.buf.length - d.pos) := by
+        rw [List.length_take, List.length_drop]
+      by_cases hL : d.buf.length - d.pos = 0
+      · have hnil : (d.buf.drop d.pos).take k = [] := by
+          apply List.eq_nil_of_length_eq_zero; rw [hlen]; omega
+        have hnil2 : (d.buf.drop d.pos).take (n + 1) = [] := by
+          apply List.eq_nil_of_length_eq_zero; rw [List.length_take, List.length_drop]; omega
+        rw [hnil] at hrd
+        refine ⟨{ d with pos := d.pos + ([] : Bytes).length, calls := d.calls + 1 }, rfl, ?_, ?_⟩
+        · simp only [List.length_nil]; omega
+        · simp only [MS.takeAllAux, hrd, if_true, hnil2]
+      · generalize hc : ((d.buf.drop d.pos).take k).length = c at hrd
+        have hc1 : 1 ≤ c ∧ c ≤ k ∧ c ≤ d.buf.length - d.pos := by rw [hlen] at hc; omega
+        have hne : (d.buf.drop d.pos).take k ≠ [] := by
+          intro h; rw [h] at hc; simp at hc; omega
+        obtain ⟨d2, hb2, hp2, hv2⟩ := ih { d with pos := d.pos + c, calls := d.calls + 1 }
+          (n + 1 - c) (by omega)
+        simp only at hb2 hp2 hv2
+        refine ⟨d2, hb2, by rw [hp2]; omega, ?_⟩
+        simp only [MS.takeAllAux, hrd, hne, if_false, hc, hv2]
+        have hkc : (d.buf.drop d.pos).take k = (d.buf.drop d.pos).take c := by
+          rw [← hc, hlen]
+          by_cases h : k ≤ d.buf.length - d.pos
+          · rw [Nat.min_eq_left h]
+          · rw [Nat.min_eq_right (by omega), List.take_of_length_le (by rw [List.length_drop]; omega),
+              List.take_of_length_le (by rw [List.length_drop]; omega)]
+        rw [hkc, ← List.drop_drop, take_split (by omega)]
+
 /-! ### Simulation: `M` (never-short device, fault-free) vs `MS` (any short-read schedule) -/
 
 /-- Same bytes, same position; the call counters differ (a short-reading device needs more calls). -/
@@ -274,6 +392,18 @@ theorem readExact (n : Nat) :
   · simp only [if_neg hle]
     exact ⟨_, d1, sd1, rfl, rfl, by rw [hsb1, hb1, hb], by rw [hsp1, hp1, hb, hp]⟩
 
+/-- **Draining an entry's `Take` does not see short reads**: the same bytes, the same position after. -/
+theorem takeAll (n : Nat) :
+    Sim (ParserIO.ioTakeAll n : M Bytes) (ParserIO.ioTakeAll n : MS Bytes) := by
+  intro sch d sd ⟨hb, hp⟩
+  obtain ⟨d1, hb1, hp1, e1⟩ := M_takeAll_spec n d
+  obtain ⟨sd1, hsb1, hsp1, e2⟩ := short_takeAllAux_spec sch n sd n (Nat.le_refl _)
+  have hy : (ParserIO.ioTakeAll n : MS Bytes) sch sd =
+      (.ok (MS.takeAllAux sch n sd n).1, (MS.takeAllAux sch n sd n).2) := rfl
+  have hx : (ParserIO.ioTakeAll n : M Bytes) none d = Model.takeAll n none d := rfl
+  rw [hx, hy, e1, e2, hb, hp]
+  exact ⟨_, d1, sd1, rfl, rfl, by rw [hsb1, hb1, hb], by rw [hsp1, hp1, hb, hp]⟩
+
 theorem ite {c : Prop} [Decidable c] {x x' : M α} {y y' : MS α} (h1 : Sim x y) (h2 : Sim x' y') :
     Sim (if c then x else x') (if c then y else y') := by
   split
@@ -293,7 +423,7 @@ syntax "sim_step" : tactic
 macro_rules
   | `(tactic| sim_step) => `(tactic| first
     | exact Sim.pure _ | exact Sim.throw _ | exact Sim.panic _ | exact Sim.seek _
-    | exact Sim.readExact _ | assumption
+    | exact Sim.readExact _ | exact Sim.takeAll _ | assumption
     | refine Sim.bind ?_ ?_
     | refine Sim.attempt ?_
     | refine Sim.ite ?_ ?_
@@ -388,6 +518,35 @@ theorem sim_findContent (f : FileData) :
     Sim (findContent f : M Nat) (findContent f : MS Nat) := by
   unfold findContent
   repeat' sim_step2
+
+theorem sim_streamHeader : Sim (streamHeader : M (Option FileData)) (streamHeader : MS (Option FileData)) := by
+  unfold streamHeader
+  repeat' sim_step2
+
+theorem sim_streamEntry (ext : Ext) : Sim (streamEntry ext : M _) (streamEntry ext : MS _) := by
+  unfold streamEntry
+  repeat' (first | exact sim_streamHeader | sim_step2)
+
+theorem sim_streamEntries (ext : Ext) : ∀ fuel : Nat,
+    Sim (streamEntries ext fuel : M _) (streamEntries ext fuel : MS _)
+  | 0 => by unfold streamEntries; exact Sim.pure _
+  | fuel + 1 => by
+    have ih := sim_streamEntries ext fuel
+    unfold streamEntries
+    repeat' (first | exact ih | exact sim_streamEntry _ | sim_step2)
+
+theorem sim_streamCentralLoop : ∀ fuel : Nat,
+    Sim (streamCentralLoop fuel : M _) (streamCentralLoop fuel : MS _)
+  | 0 => by unfold streamCentralLoop; exact Sim.pure _
+  | fuel + 1 => by
+    have ih := sim_streamCentralLoop fuel
+    unfold streamCentralLoop
+    repeat' (first | exact ih | exact sim_centralHeaderInner _ _ | sim_step2)
+
+theorem sim_streamVisitF (ext : Ext) (fuel₁ fuel₂ : Nat) :
+    Sim (streamVisitF ext fuel₁ fuel₂ : M _) (streamVisitF ext fuel₁ fuel₂ : MS _) := by
+  unfold streamVisitF
+  repeat' (first | exact sim_streamEntries _ _ | exact sim_streamCentralLoop _ | exact sim_centralHeaderInner _ _ | sim_step2)
 
 end G
 
